@@ -13,7 +13,7 @@ PRIMS = {
     "sem": {
         "new_lines": ["new sem 0", "new sem 1", "new sem 2"],
         "quick": {"depth": 6, "beam": [12, 1, 4], "random_count": 300, "random_len": 40},
-        "thorough": {"depth": 8, "beam": [48, 2, 5], "random_count": 20000, "random_len": 50},
+        "thorough": {"depth": 7, "beam": [32, 2, 5], "random_count": 20000, "random_len": 50},
     },
 }
 
@@ -61,6 +61,7 @@ PROPS = {
                     "non-generic types (Semaphore, Barrier, their guards and futures) have unconditional auto traits and are only covered by the lifetime probes"],
     },
     "C09": {
+        "atomics": True,
         "modules": ["ALock.Props.C09"],
         "prims": ["barrier"],
         "fields": ["out", "w", "words", "ev"],
@@ -81,6 +82,7 @@ PROPS = {
                     "thread interleavings; blocking forms"],
     },
     "C08": {
+        "atomics": True,
         "modules": ["ALock.Props.C08"],
         "prims": ["once"],
         "fields": ["out", "w", "words", "ev", "val"],
@@ -99,6 +101,7 @@ PROPS = {
         "partial": ["interleavings of atomic operations", "happens-before clauses (memory-ordering table)"],
     },
     "C06": {
+        "atomics": True,
         "modules": ["ALock.Props.C06"],
         "prims": ["rwlock"],
         "fields": ["out", "w", "words", "ev"],
@@ -165,6 +168,7 @@ PROPS = {
         "partial": ["interleavings of atomic operations (small-step model)", "release happens-before next acquire (memory-ordering table)"],
     },
     "C05": {
+        "atomics": True,
         "modules": ["ALock.Props.C05"],
         "prims": ["mutex"],
         "fields": ["out", "w", "words", "ev"],
@@ -195,6 +199,7 @@ PROPS = {
         "partial": ["thread interleavings: proved on the poll-granular model (atomic calls)"],
     },
     "C07": {
+        "atomics": True,
         "modules": ["ALock.Props.C07"],
         "prims": ["sem"],
         "fields": ["out", "w", "words", "ev"],
@@ -209,15 +214,18 @@ PROPS = {
 # (all interleavings up to a preemption bound, C11 memory model). A failure is a violation with the
 # scenario as replay; passing adds nothing to the proof level.
 LOOM = {
-    "C01": ["c01_try_lock", "c01_lock", "c05_three"],
-    "C02": ["c02_try", "c02_upgrade", "c02_async", "c06_mix", "c11_downgrade_async", "c11_upgrade_async"],
-    "C03": ["c03_add", "c03_excl", "c03_async", "c07_three"],
-    "C04": ["c04_blocking", "c04_publish", "c08_handover"],
-    "C05": ["c01_lock", "c05_three"],
-    "C06": ["c02_async", "c06_mix", "c11_upgrade_async"],
-    "C07": ["c03_async", "c07_three"],
-    "C08": ["c08_handover", "c04_blocking"],
-    "C09": ["c09_barrier"],
-    "C11": ["c11_downgrade", "c11_to_upgradable", "c11_downgrade_async", "c11_upgrade_async"],
-    "C12": ["c02_async", "c06_mix"],
+    "C01": ["c01_try_lock", "c01_lock", "c05_three", "c01_blocking"],
+    "C02": ["c02_try", "c02_upgrade", "c02_async", "c06_mix", "c11_downgrade_async", "c11_upgrade_async",
+            "c02_blocking", "c11_blocking"],
+    "C03": ["c03_add", "c03_excl", "c03_async", "c07_three", "c03_blocking"],
+    "C04": ["c04_blocking", "c04_publish", "c08_handover", "c08_blocking"],
+    "C05": ["c01_lock", "c05_three", "c05_starved", "c05_starved_held", "c05_barge", "c01_blocking", "c10_mutex_cancel"],
+    "C06": ["c02_async", "c06_mix", "c11_upgrade_async", "c02_blocking", "c10_rw_cancel"],
+    "C07": ["c03_async", "c07_three", "c03_blocking", "c10_sem_cancel"],
+    "C08": ["c08_handover", "c04_blocking", "c08_blocking"],
+    "C09": ["c09_barrier", "c09_blocking"],
+    "C10": ["c10_mutex_cancel", "c10_rw_cancel", "c10_sem_cancel"],
+    "C11": ["c11_downgrade", "c11_to_upgradable", "c11_downgrade_async", "c11_upgrade_async", "c11_blocking"],
+    "C12": ["c02_async", "c06_mix", "c02_blocking"],
+    "C13": ["c05_starved", "c05_barge"],
 }
